@@ -54,6 +54,19 @@ end
 /-- `collection.AddModules(modules...)`: the same loop, no wrapping at top level -/
 def addModules (c : Coll) (ms : Items) : Coll × Option Err := runItems c ms
 
+/-- a call that can change a collection: a direct call or `AddModules`. (Build and the queries do
+not change it.) -/
+inductive Call
+  | op (o : Op)
+  | mods (ms : Items)
+
+def call (c : Coll) : Call → Coll
+  | .op o => (step c o).1
+  | .mods ms => (addModules c ms).1
+
+/-- the collection after a history of calls -/
+def runCalls (c : Coll) (cs : List Call) : Coll := cs.foldl call c
+
 /-! ### flattening -/
 
 mutual
@@ -86,6 +99,22 @@ def runOps (c : Coll) : List Op → Coll × Option (Nat × Err)
 def wrapPath : List String → Err → Err
   | [], e => e
   | n :: rest, e => .module n (wrapPath rest e)
+
+/-- `errors.As(e, &ModuleError{})` on one layer -/
+def Err.moduleName? : Err → Option String
+  | .module n _ => some n
+  | _ => none
+
+/-- the names of the modules enclosing the `i`-th leaf builder, outermost first -/
+def pathAt (l : List (List String × Op)) (i : Nat) : List String :=
+  match l[i]? with
+  | some (p, _) => p
+  | none => []
+
+/-- the error `AddModules` / a module returns when the flattened calls fail at position `i` with `e` -/
+def moduleError (l : List (List String × Op)) : Option (Nat × Err) → Option Err
+  | none => none
+  | some (i, e) => some (wrapPath (pathAt l i) e)
 
 /-- conversions for readability of statements and for the driver -/
 def Items.ofList : List (Option Mod) → Items
